@@ -149,16 +149,16 @@ def resizeGo (len : Nat) (cw : WMap) : List String → Nat → Nat → WMap → 
   | [], _, _, acc => .ok acc
   | col :: rest, i, rem, acc =>
     match cw.get col with
-    | none => .panic "printer.rs:417 column_widths.get(col).unwrap()"
+    | none => .panic "printer.rs:419 column_widths.get(col).unwrap()"
     | some width =>
-      if len < i then .panic "printer.rs:420 self.column_widths.len() - i"
+      if len < i then .panic "printer.rs:422 self.column_widths.len() - i"
       else
         let maxc := share rem (len - i)
         if width < maxc then
-          if rem < width then .panic "printer.rs:422 remaining -= width"
+          if rem < width then .panic "printer.rs:424 remaining -= width"
           else resizeGo len cw rest (i + 1) (rem - width) (acc.put col width)
         else
-          if rem < maxc then .panic "printer.rs:425 remaining -= max_column_width"
+          if rem < maxc then .panic "printer.rs:427 remaining -= max_column_width"
           else resizeGo len cw rest (i + 1) (rem - maxc) (acc.put col maxc)
 
 /-- `resize_widths_to_fit` -/
@@ -171,7 +171,7 @@ def headerCells (w : WMap) : List String → Outcome (List Str)
   | [] => .ok []
   | c :: cs =>
     match w.get c with
-    | none => .panic "printer.rs:464 self.column_widths[column_name]"
+    | none => .panic "printer.rs:466 self.column_widths[column_name]"
     | some n =>
       match fmtEllipsis c.toList n with
       | .ok cell =>
@@ -187,7 +187,7 @@ def rowCells (w : WMap) (row : Fields) : List String → Outcome (List Str)
   | [] => .ok []
   | c :: cs =>
     match w.get c with
-    | none => .panic "printer.rs:445 self.column_widths[column_name]"
+    | none => .panic "printer.rs:447 self.column_widths[column_name]"
     | some n =>
       match fmtEllipsis (cellText ((Fields.get c row).getD .none)) n with
       | .ok cell =>
@@ -223,7 +223,7 @@ def clip (env : Env) (overlength : Str) : Outcome Str :=
   match env.term with
   | none => .ok overlength
   | some (_, h) =>
-    if h < 1 then .panic "printer.rs:476 (height as usize) - 1"
+    if h < 1 then .panic "printer.rs:478 (height as usize) - 1"
     else
       match (rustLines overlength).take (h - 1) with
       | [] => .ok ['\n']                         -- `"".to_string() + "\n"`
@@ -244,7 +244,7 @@ def tableParts (env : Env) (widths : WMap) (t : Table) : Outcome (WMap × Parts)
   let w1 := absorbRows env.cfg widths t.rows
   match resize env w1 t.columns with
   | .ok w2 =>
-    if !fits env w2 then .panic "printer.rs:462 assert!(self.fits_within_term_agg())"
+    if !fits env w2 then .panic "printer.rs:464 assert!(self.fits_within_term_agg())"
     else
       match headerCells w2 t.columns with
       | .ok hs =>
@@ -319,7 +319,7 @@ def recordCells (noPad : Bool) (w : WMap) (data : Fields) : List String → Outc
       if noPad then .ok unpadded
       else
         match w.get c with
-        | none => .panic "printer.rs:384 self.column_widths[column_name]"
+        | none => .panic "printer.rs:383 self.column_widths[column_name]"
         | some n => .ok (padTo (byteLen c.toList + 3 + n) unpadded)
     match cell with
     | .ok x =>
